@@ -381,6 +381,12 @@ int __wrap_mprotect(void* addr, size_t len, int prot) {
 } // extern "C"
 
 #ifdef RXV_REPLACE_NEW
+static bool g_poisonFreed = false;
+static const size_t kQuar = 1024;
+static void* g_quar[kQuar];
+static size_t g_quarPos = 0;
+static rxv::ip::Spin g_quarLock;
+namespace rxv { namespace ip { void setPoisonFreed(bool on) { g_poisonFreed = on; } } }
 static void* rxvNew(size_t n) {
 	if (tl_depth > 0 && !tl_busy) {
 		tl_busy = true;
@@ -403,6 +409,16 @@ static void rxvDelete(void* p) noexcept {
 		size_t len = 0;
 		uint8_t k = liveDel((uintptr_t)p, &len);
 		logEvent(K_DELETE, (uintptr_t)p, len, 0, 0, k ? 0 : -1, false);
+		if (k && g_poisonFreed) {
+			// hostile heap for small library objects: poison and delay reuse, so that a stale pointer into a released
+			// object reads 0xDD.. (and crashes when it is followed) instead of silently finding the old or a look-alike object
+			memset(p, 0xDD, len);
+			void* old;
+			{ Lock l(g_quarLock); old = g_quar[g_quarPos]; g_quar[g_quarPos] = p; g_quarPos = (g_quarPos + 1) % kQuar; }
+			tl_busy = false;
+			if (old) __real_free(old);
+			return;
+		}
 		tl_busy = false;
 	}
 	__real_free(p);
@@ -413,4 +429,7 @@ void operator delete(void* p) noexcept { rxvDelete(p); }
 void operator delete[](void* p) noexcept { rxvDelete(p); }
 void operator delete(void* p, size_t) noexcept { rxvDelete(p); }
 void operator delete[](void* p, size_t) noexcept { rxvDelete(p); }
+#endif
+#ifndef RXV_REPLACE_NEW
+namespace rxv { namespace ip { void setPoisonFreed(bool) {} } }
 #endif
